@@ -81,7 +81,9 @@ func runSeekRead(r *core.Run) {
 			for _, in := range b.Instrs {
 				if c, ok := in.(*ssa.Call); ok {
 					g := c.Call.StaticCallee()
-					if g != nil && !seen[g] && g.Signature.Recv() != nil && recvName(g) == recvName(fn) && g.Object() != nil && !g.Object().Exported() && len(g.Blocks) > 0 {
+					sameRecv := g != nil && g.Signature.Recv() != nil && recvName(g) == recvName(fn)
+					plainHelper := g != nil && g.Signature.Recv() == nil && fnPkg(g) == fnPkg(fn) // readLoop(r.r, b, n): a package-level helper the reader is handed to
+					if g != nil && !seen[g] && (sameRecv || plainHelper) && g.Object() != nil && !g.Object().Exported() && len(g.Blocks) > 0 {
 						seen[g] = true
 						site[g] = c
 						unit = append(unit, g)
